@@ -338,6 +338,8 @@ val num_ltb : num -> num -> bool
 
 val num_is_zero : num -> bool
 
+val num_same : num -> num -> bool
+
 type key =
 | KName of str
 | KIdx of z
@@ -1388,6 +1390,16 @@ val cls_fn_first : (n * n) list
 val cls_fn_char : (n * n) list
 
 val int_rt : z -> bool
+
+val is_eE : n -> bool
+
+val nonnil_ : n list -> bool
+
+val isnil_ : n list -> bool
+
+val float_formb : str -> bool
+
+val flt_rt : num -> bool
 
 val lx_lit : json -> bool
 
